@@ -49,54 +49,60 @@ def spec_vs_machine(r, seed, tier, model_ok):
 
 # ------------------------------------------------------------------ I/O bind trees (C07)
 E = G.enc
-def io_gen(R, d, inlam):
-    c = R.random()
-    if d <= 0 or c < .35:
-        k = R.choice(["print", "read", "ret"] + (["printx", "retx"] if inlam else []))
-        return (k, R.randrange(0, 100)) if k in ("print", "ret") else (k,)
-    if c < .45: return ("discard", io_gen(R, d - 1, inlam), io_gen(R, d - 1, inlam))
-    m = io_gen(R, d - 1, inlam)
-    f = ("lamthrow",) if R.random() < .15 else ("lam", io_gen(R, d - 1, True))
-    h = None if R.random() < .6 else ("lam", io_gen(R, d - 1, True))
-    return ("bind", m, f, h)
-def io_text(t, up=None):
-    """up = None: x is ㄱㅇㄱ (innermost lambda); up = k: the body sits under k extra lambdas that ignore their argument"""
-    k = t[0]; X = "ㄱㅇㄱ" if up is None else f"ㄱㅇ{E(up)}"
-    if k == "print": return f"({E(t[1])} ㅁㅈㅎㄴ ㅈㄹㅎㄴ)"
-    if k == "printx": return f"({X} ㅈㄹㅎㄴ)"
-    if k == "read": return "(ㄹㅎㄱ)"
-    if k == "ret": return f"({E(t[1])} ㄱㅅㅎㄴ)"
-    if k == "retx": return f"({X} ㄱㅅㅎㄴ)"
-    if k == "discard": return f"({io_text(t[1], up)} ({io_text(t[2], 1 if up is None else up + 1)} ㅎ) ㅎㄴ)"
-    if k == "lam": return f"({io_text(t[1])} ㅎ)"
-    if k == "lamthrow": return "((ㄱㅇㄱ ㄷㅂㅎㄴ ㄷㅈㅎㄴ) ㅎ)"
-    m, f, h = t[1], t[2], t[3]
-    return f"({io_text(m, up)} {io_text(f)} {io_text(h)} ㄱㄹㅎㄹ)" if h else f"({io_text(m, up)} {io_text(f)} ㄱㄹㅎㄷ)"
-def io_leaves(t):
-    if t is None: return 0
-    if t[0] in ("print", "printx", "read", "ret", "retx", "lamthrow"): return 1
-    return sum(io_leaves(x) for x in t[1:] if isinstance(x, tuple))
+class IOGen:
+    """action expressions as text.  ctx = binder kinds, innermost last: 'val' (result of a bound action), 'act' (an action passed as an
+    argument: SHARED between all its uses), 'skip'.  A use of binder i levels up is  ㄱㅇ<i>."""
+    def __init__(s, R): s.R = R; s.leaves = 0; s.shared_uses = 0
+    def ref(s, ctx, kind):
+        idx = [len(ctx) - 1 - i for i, k in enumerate(ctx) if k == kind]
+        return f"ㄱㅇ{E(s.R.choice(idx))}" if idx else None
+    def leaf(s, ctx):
+        R = s.R; s.leaves += 1
+        k = R.choice(["print", "read", "ret", "printx", "retx", "act", "act"])
+        if k == "act":
+            a = s.ref(ctx, "act")
+            if a: s.shared_uses += 1; return f"({a})"
+            k = "read"
+        if k in ("printx", "retx"):
+            x = s.ref(ctx, "val")
+            if x: return f"({x} ㅈㄹㅎㄴ)" if k == "printx" and R.random() < .5 else f"({x} ㄱㅅㅎㄴ)"
+            k = "print"
+        if k == "print": return f"({E(R.randrange(0, 100))} ㅁㅈㅎㄴ ㅈㄹㅎㄴ)"
+        if k == "read": return "(ㄹㅎㄱ)"
+        return f"({E(R.randrange(0, 100))} ㄱㅅㅎㄴ)"
+    def gen(s, d, ctx):
+        R = s.R; c = R.random()
+        if d <= 0 or c < .3: return s.leaf(ctx)
+        if c < .5:      # (\a. BODY) ACTION : the action value is passed as an argument; BODY may use it 0, 1 or several times
+            return f"({s.gen(d - 1, ctx)} ({s.gen(d - 1, ctx + ['act'])} ㅎ) ㅎㄴ)"
+        m = s.gen(d - 1, ctx)
+        f = "((ㄱㅇㄱ ㄷㅂㅎㄴ ㄷㅈㅎㄴ) ㅎ)" if R.random() < .12 else f"({s.gen(d - 1, ctx + ['val'])} ㅎ)"
+        if R.random() < .6: return f"({m} {f} ㄱㄹㅎㄷ)"
+        return f"({m} {f} ({s.gen(d - 1, ctx + ['val'])} ㅎ) ㄱㄹㅎㄹ)"
+def io_text_closed(R, d):
+    g = IOGen(R); t = g.gen(d, []); return t, g.leaves, g.shared_uses
 
 def io_trees(r, seed, tier, model_ok):
-    """random bind trees over read / print / return / throwing leaves, with handlers and with actions built and discarded
-    inside pure code, x random stdin: result, stdout bytes, unread stdin and event trace vs the model"""
+    """random bind trees over read / print / return / throwing leaves, with handlers, with actions built and discarded inside pure code,
+    and with action VALUES shared between several bind positions (passed as arguments) x random stdin: result, stdout bytes, unread stdin
+    and event trace vs the model"""
     R = random.Random(seed * 7919 + 0xC07); n = N(tier, 3000, 60000)
-    cases = []; kinds = collections.Counter()
+    cases = []; shared = 0
     while len(cases) < n:
-        t = io_gen(R, R.randrange(1, 6), False)
-        lines = [R.choice(["a", "bc", "", "12", "한글", "x y", "😀"]) for _ in range(R.randrange(0, 4))]
-        cases.append(dict(text=io_text(t), stdin=lines, leaves=io_leaves(t))); kinds[t[0]] += 1
+        t, leaves, su = io_text_closed(R, R.randrange(1, 6))
+        lines = [R.choice(["a", "bc", "", "12", "한글", "x y", "😀"]) for _ in range(R.randrange(0, 5))]
+        cases.append(dict(text=t, stdin=lines, leaves=leaves)); shared += su > 1
     a = impl_run(cases)
     if not model_ok: return
     b = model_run(cases)
     dist, bad = compare(cases, a, b)
     distinct = len({(c["text"], tuple(c["stdin"])) for c in cases if c["leaves"] >= 2})
-    r.slice("io_trees", len(cases), distinct, [dict(program=c["text"], stdin=c["stdin"]) for c in cases[:2]], dict(outcomes=dict(dist), roots=dict(kinds)),
-            "random bind trees depth <= 5 x 0..3 stdin lines; distinct = distinct (program, stdin) with >= 2 leaves", bad)
+    r.slice("io_trees", len(cases), distinct, [dict(program=c["text"], stdin=c["stdin"]) for c in cases[:2]], dict(outcomes=dict(dist), programs_with_a_shared_action_used_twice_or_more=shared),
+            "random bind trees depth <= 5 (incl. shared action values) x 0..4 stdin lines; distinct = distinct (program, stdin) with >= 2 leaves", bad)
     # implementation-only oracle: monad laws up to observation
     laws = []
     for _ in range(N(tier, 300, 5000)):
-        m = io_text(io_gen(R, 2, False)); f = io_text(("lam", io_gen(R, 2, True))); g = io_text(("lam", io_gen(R, 2, True))); v = R.randrange(0, 50)
+        m = io_text_closed(R, 2)[0]; f = "(" + IOGen(R).gen(2, ["val"]) + " ㅎ)"; g = "(" + IOGen(R).gen(2, ["val"]) + " ㅎ)"; v = R.randrange(0, 50)
         lines = [R.choice(["a", "bc", ""]) for _ in range(R.randrange(0, 3))]
         laws.append(("left-identity", f"(({E(v)} ㄱㅅㅎㄴ) {f} ㄱㄹㅎㄷ)", f"({E(v)} {f} ㅎㄴ)", lines))
         laws.append(("right-identity", f"({m} (ㄱㅇㄱ ㄱㅅㅎㄴ ㅎ) ㄱㄹㅎㄷ)", m, lines))
@@ -196,3 +202,64 @@ def int_kernels(r, seed, tier, model_ok):
     if model_ok:
         b = model_run(cases); dist, bad2 = compare(cases, a, b, fields=("res",))
         r.slice("int_kernels_model", n, len({c["text"] for c in cases}), [cases[1]["text"]], dict(outcomes=dict(dist)), "the same programs, implementation vs extracted model", bad2)
+
+# ------------------------------------------------------------------ C13: at most one evaluation per delayed expression
+def _once_one(case):
+    """run one program with an observer that counts, per Expr object, the evaluations STARTED WITH AN EMPTY CACHE"""
+    import sys, io, signal
+    parse, interpret, AS, M = vlib.mods()
+    class Rec(interpret.DebuggerBase):
+        def __init__(s): s.starts = {}; s.keep = []; s.results = {}; s.events = 0; s.bad_share = []
+        def before_eval(s, d, e):
+            s.events += 1; s.keep.append(e)
+            if e.cache_box.value is None: s.starts[id(e)] = s.starts.get(id(e), 0) + 1
+        def after_eval(s, d, e, r):
+            s.events += 1
+            if id(e) in s.results and s.results[id(e)] is not r: s.bad_share.append(e.expr.metadata.start_col)
+            s.results[id(e)] = r
+    rec = Rec(); old = sys.stdin, sys.stdout; sys.stdin = io.StringIO(""); sys.stdout = io.StringIO()
+    signal.signal(signal.SIGALRM, vlib._alarm); signal.setitimer(signal.ITIMER_REAL, case.get("tlimit", 3.0))
+    try:
+        try:
+            asts = parse.parse("<t>", case["text"])
+            interpret.evaluate(M.formatter(AS.Expr(asts[0], AS.Env([], [])), False), debugger=rec); res = "ok"
+        except AS.UnsuspectedHangeulError: res = "err"
+        except vlib._TO: res = "TIMEOUT"
+        except RuntimeError as e: res = "LIMIT" if "Maximum Stack Size" in str(e) else vlib.host_site(e)
+        except BaseException as e: res = vlib.host_site(e)
+    finally:
+        signal.setitimer(signal.ITIMER_REAL, 0); sys.stdin, sys.stdout = old
+    multi = sum(1 for v in rec.starts.values() if v > 1)
+    return (res, rec.events, len(rec.starts), multi, len(rec.bad_share))
+
+def c13_once(r, seed, tier, model_ok):
+    """(a) generated programs: per delayed-expression object at most one evaluation started with an empty cache, and all 'finished'
+    events of one object carry the very same result object; (b) doubling / fan-out families d_k = (\\x. x + x)(d_{k-1}), k up to 200:
+    the number of observer events must grow LINEARLY in k (call-by-name would need 2^k)"""
+    R = random.Random(seed * 7919 + 0xC13)
+    cases, stats = gen_programs(R, N(tier, 3000, 50000))
+    out = vlib.pmap(_once_one, cases)
+    bad = [dict(program=c["text"], impl=f"{o[3]} delayed expression(s) evaluated more than once from an empty cache; {o[4]} with two different result objects", model="at most once, result shared", which=["once"])
+           for c, o in zip(cases, out) if o[3] or o[4]]
+    r.slice("once_per_expression", len(cases), len({c["text"] for c in cases if nontrivial(c["text"])}), [cases[0]["text"]],
+            dict(outcomes=dict(collections.Counter(o[0].split(" at ")[0] for o in out)), expressions_observed=sum(o[2] for o in out), events=sum(o[1] for o in out)),
+            "implementation-side counting observer over generated programs; distinct = distinct texts of >= 6 words", bad[:40])
+    fams = {"double-add": lambda k: "ㄴ" + " (ㄱㅇㄱ ㄱㅇㄱ ㄷㅎㄷ ㅎ) ㅎㄴ" * k,
+            "double-list": lambda k: "ㄴ" + " (ㄱㅇㄱ ㄱㅇㄱ ㅁㄹㅎㄷ ㅎ) ㅎㄴ" * min(k, 14),
+            "fan-out-3": lambda k: "ㄴ" + " (ㄱㅇㄱ ㄱㅇㄱ ㄱㅇㄱ ㄷㅎㄹ ㅎ) ㅎㄴ" * k,
+            "shared-in-branches": lambda k: "ㄴ" + " (ㄱㅇㄱ ㄱㅇㄱ ㄱㅇㄱ ㄱㅇㄱ ㄴㅎㄷ ㅎㄷ ㅎ) ㅎㄴ" * k}
+    bad2 = []; meas = {}
+    for name, f in fams.items():
+        ks = [10, 20, 40, 80, 200] if name != "double-list" else [4, 8, 12, 14, 14]
+        ev = [_once_one(dict(text=f(k), tlimit=20)) for k in ks]
+        meas[name] = {k: e[1] for k, e in zip(ks, ev)}
+        if name == "double-list": continue
+        for e, k in zip(ev, ks):
+            if e[0] not in ("ok",): bad2.append(dict(program=f"{name} k={k}: {f(k)[:80]}...", impl=e[0], model="completes (work proportional to the number of delayed expressions)", which=["linear"]))
+        slope = (ev[1][1] - ev[0][1]) / (ks[1] - ks[0]); pred = ev[0][1] + slope * (ks[-1] - ks[0])
+        if ev[-1][0] == "ok" and ev[-1][1] > 1.05 * pred + 10: bad2.append(dict(program=f"{name}: {f(3)}", impl=f"events: {meas[name]}", model=f"linear in k (predicted {pred:.0f} at k={ks[-1]})", which=["linear"]))
+    r.slice("sharing_families", sum(len(v) for v in meas.values()), 4 * 5, [fams["double-add"](3)], meas, "doubling / fan-out families: observer events linear in depth k (k up to 200)", bad2)
+    if model_ok:
+        mc = [dict(text=f(k)) for f in fams.values() for k in (3, 10, 14)]
+        a = impl_run(mc); b = model_run(mc); dist, bad3 = compare(mc, a, b)
+        r.slice("sharing_families_vs_model", len(mc), len(mc), [mc[0]["text"]], dict(outcomes=dict(dist)), "the same families, full event trace vs the model", bad3)
